@@ -112,6 +112,8 @@ def shipped_case(draw):
     name = draw(st.sampled_from(['mex_pte.h', 'nimitz_pte.h']))
     n = draw(st.one_of(st.integers(0, 70), st.sampled_from([0, 1, 2, 40, 46, 47, 48, 49, 50, 60])))
     data = bytes(draw(st.lists(val_byte, min_size=n, max_size=n)))
+    if draw(st.integers(0, 9)) == 0:
+        data = bytes(n)                      # an all-zero log still gets its dump and headings
     return {'file': name, 'data': data}
 
 
@@ -125,4 +127,15 @@ def shipped(case, note):
                         % (case['file'], len(got_fields), len(fields)), sig='C16.grammar.shipped')
     lines = guard('C16.decode', hlog().parse_hlog_data, memoryview(case['data']), path)
     check_output(lines, fields, case['data'])
+    if case['data'] and case.get('file'):
+        # the same bytes as an I/O-drawer history-log section (sub-type 72) of an error log
+        import json
+        import udparsers.m2c00.m2c00 as plug
+        ver = {'mex_pte.h': 1, 'nimitz_pte.h': 2}[case['file']]
+        out = json.loads(guard('C16.plugin', plug.parseUDToJson, 72, ver, memoryview(case['data'])))
+        note.extra_eval += 1
+        if out.get('History Log') != lines:
+            raise Violation('C16.plugin', 'as a history-log section of a PEL (version %d) the %d bytes %s are shown as %r, '
+                            'the history-log decoder gives %d lines' % (ver, len(case['data']), case['data'].hex()[:60],
+                                                                       str(out)[:200], len(lines)), sig='C16.plugin')
     classify(fields, case['data'], note)
